@@ -373,13 +373,13 @@ Section Semantics.
       (fst rw, mkWorld (w_base (snd rw)) (prune (w_objs w) (fst rw) (w_objs (snd rw))) (w_hist (snd rw))).
 
   (* the step of the wrapped world *)
-  Definition wstep (w : world) (c : ccall) : wres * world :=
+  Definition wrap_wstep (w : world) (c : ccall) : wres * world :=
     call_obj (comp_cb (c_obj c)) w (c_obj c) (c_meth c) (c_args c) (c_bind c).
 
   Fixpoint wrun (w : world) (cs : list ccall) : list wres * world :=
     match cs with
     | [] => ([], w)
-    | c :: r => let '(x, w') := wstep w c in
+    | c :: r => let '(x, w') := wrap_wstep w c in
                 let '(xs, w'') := wrun w' r in (x :: xs, w'')
     end.
 
